@@ -35,6 +35,7 @@ func C09(r *core.Run) {
 	statementsRenderSomething(r)
 	descriptionWordsBySpace(r)
 	headerDescriptionOneToken(r)
+	tagMarksRendered(r)
 }
 
 // C11 — BCL parser is total and every diagnostic points inside the file.
